@@ -66,6 +66,17 @@ func runSolver(ctx context.Context, s solverSpec, file string, timeoutS int) (st
 
 // Solve races the solvers on one query file. wantModel asks for a model when
 // the answer is sat (a second run with (get-model)).
+// Probe runs a vacuity probe: a short single-solver attempt to derive a
+// contradiction. Only `unsat` is informative (the context is inconsistent).
+func Probe(file string, timeoutS int) *SolveResult {
+	res := &SolveResult{Outputs: map[string]string{}}
+	t0 := time.Now()
+	st, _, _ := runSolver(context.Background(), solvers[0], file, timeoutS)
+	res.Outputs[solvers[0].name] = st
+	res.Status, res.Solver, res.TimeS = st, solvers[0].name, time.Since(t0).Seconds()
+	return res
+}
+
 func Solve(file string, timeoutS int, wantModel bool) *SolveResult {
 	res := &SolveResult{Outputs: map[string]string{}}
 	t0 := time.Now()
@@ -133,10 +144,17 @@ func Solve(file string, timeoutS int, wantModel bool) *SolveResult {
 		return res
 	}
 	res.Status = "unknown"
+	nerr := 0
 	for _, v := range res.Outputs {
 		if v == "timeout" {
 			res.Status = "timeout"
 		}
+		if strings.HasPrefix(v, "error") {
+			nerr++
+		}
+	}
+	if nerr == len(res.Outputs) && nerr > 0 {
+		res.Status = "error" // malformed query: an engine bug, never a verdict
 	}
 	return res
 }
